@@ -677,4 +677,45 @@ theorem function_scoped_not_cached_across_declarations :
       (if r.1 then functionScopedOptions else functionScopedFormats).contains r.2.1 = false := by
   decide +kernel
 
+/-! ### a format field written directly = the same value given through its template option -/
+
+/-- **library level**: writing `format: {K: v}` and writing the template option
+    so that it yields `v` give the same, post-processed, field (for every
+    dictionary without `K`, value and post-processing function). -/
+theorem library_format_eq_template (d : Dict β) (k : Nat) (v t : β) (post : β → β)
+    (hk : dget d k = none) :
+    dget (libraryField d [(k, v)] k t post) k = some (post v) ∧
+    dget (libraryField d [] k v post) k = some (post v) := by
+  constructor
+  · simp [libraryField, postD, evalTemplateD, dupdate, dhas, dget_dset_same]
+  · simp [libraryField, postD, evalTemplateD, dupdate, dhas, hk, dget_dset_same]
+
+/-- **namespace level**: the same for the order used by
+    `NamespaceNode.default_format` (template, `format:`, post-processing). -/
+theorem namespace_format_vs_template (d : Dict β) (k : Nat) (v t : β) (post : β → β)
+    (hk : dget d k = none) :
+    dget (namespaceField d [(k, v)] k t post) k = some (post v) ∧
+    dget (namespaceField d [] k v post) k = some (post v) := by
+  constructor
+  · simp [namespaceField, postD, evalTemplateD, dupdate, dhas, hk, dget_dset_same]
+  · simp [namespaceField, postD, evalTemplateD, dupdate, dhas, hk, dget_dset_same]
+
+/-- the order used before the fix violated it: witness -/
+example : dget (namespaceFieldOld ([] : Dict Nat) [(1, 7)] 1 9 (· + 100)) 1 = some 7 ∧
+    dget (namespaceFieldOld ([] : Dict Nat) [] 1 7 (· + 100)) 1 = some 107 := by decide
+
+example : dget (libraryField ([] : Dict Nat) [(1, 7)] 1 9 (· + 100)) 1 = some 107 := by decide
+
+open Shroud.Gen.OptReads in
+/-- **a container loop reads a member's option from the member** (static
+    part): in the regenerated table, every read of a namespace-scoped option
+    inside a loop over `.namespaces` -- and of a class-scoped option inside a
+    loop over `.classes` -- is made on the loop variable's own scope, never on
+    the enclosing node's; and the table is not empty. -/
+theorem member_options_read_from_member :
+    (∀ r ∈ loopReads, r.2.1 = 0 → namespaceScopedOptions.contains r.1 = true → r.2.2.1 = true) ∧
+    (∀ r ∈ loopReads, r.2.1 = 1 → classScopedOptions.contains r.1 = true → r.2.2.1 = true) ∧
+    (∃ r ∈ loopReads, r.2.1 = 0 ∧ namespaceScopedOptions.contains r.1 = true) := by
+  decide +kernel
+
 end Shroud.Scope
